@@ -25,12 +25,32 @@ static std::vector<int> kinds_for(bool msgpack) {
 
 struct Result { AJ::DeserializationError err; MVal doc; bool traversable = true; };
 
+// inputs that sit exactly at, one below and a little above the configured string-length limit
+static GenInput capacity_input(Rng& r, bool msgpack) {
+  GenInput in; in.msgpack = msgpack; in.cls = 5;
+  static const long deltas[] = {-1, 0, 1, 2, 5, 64};
+  size_t n = (size_t)((long)kMaxStringLength + r.pick(deltas));
+  std::string body; body.reserve(n);
+  for (size_t i = 0; i < n; i++) body += (char)('a' + (i * 7 + n) % 26);
+  unsigned shape = (unsigned)r.below(4);
+  if (!msgpack) {
+    std::string q = "\"" + body + "\"";
+    in.bytes = shape == 0 ? q : shape == 1 ? "[1,\"x\"," + q + ",2]" : shape == 2 ? "{" + q + ":1,\"k\":\"v\"}" : "{\"a\":[" + q + "," + q + "]}";
+  } else {
+    std::string h; if (n < 32) h += (char)(0xa0 | n); else if (n < 256) { h += (char)0xd9; be_put(h, n, 1); } else if (n < 65536) { h += (char)0xda; be_put(h, n, 2); } else { h += (char)0xdb; be_put(h, n, 4); }
+    std::string sv = h + body;
+    in.bytes = shape == 0 ? sv : shape == 1 ? std::string("\x93\x01", 2) + sv + "\x02" : shape == 2 ? std::string("\x82", 1) + sv + "\x01\xa1k\xa1v" : std::string("\x81\xa1" "a\x92", 4) + sv + sv;
+  }
+  return in;
+}
+
 static std::string show(const GenInput& in) { return in.msgpack ? "msgpack " + hexs(in.bytes.substr(0, 160)) + (in.bytes.size() > 160 ? "...(" + std::to_string(in.bytes.size()) + " bytes)" : "") : "json " + printable(in.bytes, 400); }
 
 void vf_run_case(Ctx& c, uint64_t index) {
   Rng r(c.seed, 3, index);
   bool msgpack = c.mode == "msgpack" || (c.mode == "bound" && r.coin());
   GenInput in = gen_input(r, msgpack);
+  if (kMaxStringLength <= 65535 && r.chance(1, kMaxStringLength > 1000 ? 60 : 25)) in = capacity_input(r, msgpack);   // (4-byte lengths: the limit is 4 GB, out of reach)
   static const int lims[] = {0, 1, 2, 10, 254, 255};
   uint8_t limit = r.chance(2, 3) ? (uint8_t)r.pick(lims) : (uint8_t)r.below(256);
   if (in.bytes.size() > 2000 || r.chance(1, 4)) limit = std::max<uint8_t>(limit, 10);
